@@ -467,10 +467,10 @@ def run(ctx):
     ctx.rule('R-LAYEDGES', 'edges = VGLVLS[lidx] + VGLVLS[lidx[-1] + 1]')
     sfn = io.func('ioapi_base.sliceDimensions')
     ctx.rule('R-GEOHANDLERS', 'the metadata handlers of sliceDimensions run whenever their dimension is selected (shared with C11)')
-    _h = c11.find_handlers(sfn)
-    c11.handler_guard_rules(ctx, sfn, _h, c11.key_names(sfn))
-    ctx.ok('R-GEOHANDLERS', 'guards', 'src/PseudoNetCDF/%s ioapi_base.sliceDimensions' % IO, '%d handlers examined for truthiness / elif guards' % len(_h))
-    c11.lay_rules(ctx, sfn, c11.find_handlers(sfn).get('LAY'), 'src/PseudoNetCDF/%s ioapi_base.sliceDimensions' % IO)
+    sfacts = c11.Facts(sfn)
+    c11.geo_guard_rules(ctx, sfacts, c11.REQUIRED)
+    ctx.ok('R-GEOHANDLERS', 'guards', 'src/PseudoNetCDF/%s ioapi_base.sliceDimensions' % IO, '%d feasible paths examined for truthiness / alternative (elif) guards' % len(sfacts.paths))
+    c11.lay_rules(ctx, sfn, sfacts, 'src/PseudoNetCDF/%s ioapi_base.sliceDimensions' % IO)
     # ---- R-LISTDIMS: a name stays in VAR-LIST only with one of the standard dimension tuples (finite case analysis of the predicate)
     from .. import consteval
     ctx.rule('R-LISTDIMS', 'getVarlist keeps a name listed only when the variable exists with the standard dimensions (gridded or boundary)')
@@ -499,31 +499,27 @@ def run(ctx):
                 ctx.ok('R-LISTDIMS', 'check', '%s ioapi_base.getVarlist' % where, 'true for %d standard tuples, false for %d others (incl. missing variable)' % (len(std), len(other)))
     # ---- R-STARTSET: a time selection sets SDATE and STIME on every path (also when one step is kept)
     ctx.rule('R-STARTSET', 'sliceDimensions sets SDATE and STIME from the first retained time on every path of the TSTEP handler')
-    th = c11.find_handlers(sfn).get('TSTEP')
-
-    def must_store(stmts, attr):
-        for st in stmts:
-            if isinstance(st, ast.Assign) and any(isinstance(t, ast.Attribute) and t.attr == attr and norm(t.value) == 'outf' for t in st.targets):
-                return st
-            if isinstance(st, ast.If) and st.orelse and must_store(st.body, attr) and must_store(st.orelse, attr):
-                return st
-            if isinstance(st, (ast.With,)) and must_store(st.body, attr):
-                return st
-        return None
-    if th is None:
+    # path-wise: every feasible path on which TSTEP is selected stores both, from the first retained time
+    tpaths = [(i, p_) for i, p_ in enumerate(sfacts.paths) if p_[2].get('TSTEP') is True or 'TSTEP' in p_[3]]
+    if not tpaths:
         ctx.undec('R-STARTSET', 'TSTEP handler', '%s ioapi_base.sliceDimensions' % where, 'no TSTEP handler found')
     else:
         for attr in ('SDATE', 'STIME'):
-            st = must_store(th.body, attr)
-            if st is None:
-                anyst = [s2 for s2 in iter_stmts(th.body) if isinstance(s2, ast.Assign) and any(isinstance(t, ast.Attribute) and t.attr == attr for t in s2.targets)]
-                ctx.violation(Finding('R-STARTSET', IO, 'ioapi_base.sliceDimensions', anyst[0] if anyst else th,
+            stored = dict((f['path'], f) for f in sfacts.of(attr))
+            missing = [p_ for i, p_ in tpaths if i not in stored]
+            if missing:
+                anyst = [f['stmt'] for f in sfacts.of(attr)]
+                extra = [norm(x)[:50] for e_, x, pol in missing[0][1].conds if c11.sel_of(x) is None and 'newdims' not in norm(x) and 'isscalar' not in norm(x)]
+                ctx.violation(Finding('R-STARTSET', IO, 'ioapi_base.sliceDimensions', anyst[0] if anyst else sfn.body[-1],
                                       '%s is not set on every path of the TSTEP handler (%s): a selection for which the guard is false keeps the source file\'s start while '
-                                      'TFLAG is sliced' % (attr, 'only under a narrower condition' if anyst else 'never set')), oid='start:' + attr)
-            elif 'times[0]' in norm(st) or 'times[0]' in norm(st.value if isinstance(st, ast.Assign) else st):
-                ctx.ok('R-STARTSET', 'start:' + attr, '%s ioapi_base.sliceDimensions' % where, norm(st)[:70])
+                                      'TFLAG is sliced' % (attr, ('only under a narrower condition: ' + ' / '.join(extra[-2:])) if anyst else 'never set')), oid='start:' + attr)
+                continue
+            fs = [stored[i] for i, p_ in tpaths]
+            first = all(any(isinstance(x, ast.Subscript) and isinstance(x.slice, ast.Constant) and x.slice.value == 0 and 'getTimes()' in norm(x.value) for x in ast.walk(f['value'])) for f in fs)
+            if first:
+                ctx.ok('R-STARTSET', 'start:' + attr, '%s ioapi_base.sliceDimensions' % where, norm(fs[0]['stmt'])[:70])
             else:
-                ctx.undec('R-STARTSET', 'start:' + attr, '%s ioapi_base.sliceDimensions' % where, 'set on every path but not from times[0]: %s' % norm(st)[:60])
+                ctx.undec('R-STARTSET', 'start:' + attr, '%s ioapi_base.sliceDimensions' % where, 'set on every path but not from the first selected time: %s' % norm(fs[0]['stmt'])[:60])
     # ---- R-NEWEDGES: interpSigma stores the requested edges, not the input file's
     ctx.rule('R-NEWEDGES', 'interpSigma stores the requested level edges (parameter vglvls) as VGLVLS of the result')
     isf = io.func('ioapi_base.interpSigma')
@@ -559,20 +555,30 @@ def run(ctx):
     ctx.rule('R-VGLEN', 'applyAlongDimensions stores NLAYS + 1 level edges for a result of any number of layers')
     aad = io.func('ioapi_base.applyAlongDimensions')
     waad = '%s ioapi_base.applyAlongDimensions' % where
-    ah = c11.find_handlers(aad).get('LAY') if c11.key_names(aad) or True else None
-    lay_if = [st for st in iter_stmts(aad.body) if isinstance(st, ast.If) and 'LAY' in c11.key_tests(st.test, c11.key_names(aad))]
-    if not lay_if:
+    afacts = c11.Facts(aad)
+    lay_fs = [f for f in afacts.of('VGLVLS') if f['sel'].get('LAY') is True or 'LAY' in f['truthy']]
+    lay_paths = [p_ for p_ in afacts.paths if p_[2].get('LAY') is True or 'LAY' in p_[3]]
+    if not lay_paths:
         ctx.violation(Finding('R-VGLEN', IO, 'ioapi_base.applyAlongDimensions', 'LAY handler', 'no branch re-derives VGLVLS when LAY is reduced', lineno=aad.lineno))
     else:
-        c11.handler_guard_rules(ctx, aad, {'LAY': lay_if[0]}, c11.key_names(aad))
+        c11.geo_guard_rules(ctx, afacts, {'LAY': ['VGLVLS']}, q='ioapi_base.applyAlongDimensions')
         # the guard may not depend on the kind of reducer: every reducer changes the layer structure
-        kindtests = [c for c in ast.walk(lay_if[0].test) if isinstance(c, ast.Call) and dotted(c.func) in ('isinstance', 'callable', 'type')]
+        kindtests = [x for f in lay_fs for e_, x, pol in f['conds'] for c in ast.walk(x) if isinstance(c, ast.Call) and dotted(c.func) in ('isinstance', 'callable', 'type')
+                     and 'LAY' in norm(x)]
         if kindtests:
-            ctx.violation(Finding('R-VGLEN', IO, 'ioapi_base.applyAlongDimensions', lay_if[0], 'VGLVLS is re-derived only for some kinds of layer reducer (%s): for the others NLAYS shrinks with the LAY dimension '
+            ctx.violation(Finding('R-VGLEN', IO, 'ioapi_base.applyAlongDimensions', lay_fs[0]['stmt'], 'VGLVLS is re-derived only for some kinds of layer reducer (%s): for the others NLAYS shrinks with the LAY dimension '
                                   'while VGLVLS keeps all source edges' % norm(kindtests[0])[:50]), oid='kind guard')
-        vst = [s2 for s2 in iter_stmts(lay_if[0].body) if isinstance(s2, ast.Assign) and norm(s2.targets[0]) == 'outf.VGLVLS']
+        vst = []
+        for f in lay_fs:
+            if not any(f['stmt'] is v_ for v_ in vst):
+                vst.append(f['stmt'])
+        unstored = [p_ for i, p_ in enumerate(afacts.paths) if (p_[2].get('LAY') is True or 'LAY' in p_[3]) and not any(f['path'] == i for f in lay_fs)]
         if not vst:
-            ctx.violation(Finding('R-VGLEN', IO, 'ioapi_base.applyAlongDimensions', lay_if[0], 'the LAY handler does not store VGLVLS'), oid='store')
+            ctx.violation(Finding('R-VGLEN', IO, 'ioapi_base.applyAlongDimensions', aad.body[-1], 'the LAY handler does not store VGLVLS'), oid='store')
+        elif unstored and not kindtests:
+            extra = [norm(x)[:50] for e_, x, pol in unstored[0][1].conds if c11.sel_of(x) is None]
+            ctx.violation(Finding('R-VGLEN', IO, 'ioapi_base.applyAlongDimensions', vst[0], 'VGLVLS is re-derived only on some paths taken when LAY is reduced (%s): on the others NLAYS shrinks while VGLVLS keeps '
+                                  'all source edges' % ' / '.join(extra[-2:])), oid='store')
         for st in vst:
             e = st.value
             while isinstance(e, ast.Call) and isinstance(e.func, ast.Attribute) and e.func.attr in ('view', 'astype', 'copy'):
